@@ -79,6 +79,7 @@ std::string session(const std::string& kind_arg, const std::string& spec, const 
     try {
         CDNS::CdnsDecoder dec(*in);
         bool first = true;
+        bool flip = false;      // the caller's out-parameter of read_array_start/read_map_start holds true / false alternately beforehand
         for (const std::string& op : vh::split(ops, ',')) {
             std::string r;
             try {
@@ -91,8 +92,8 @@ std::string session(const std::string& kind_arg, const std::string& spec, const 
                 else if (op == "rts") r = shown(dec.read_textstring());
                 else if (op == "rbs#") r = vh::digest(dec.read_bytestring());
                 else if (op == "rts#") r = vh::digest(dec.read_textstring());
-                else if (op == "ras") { bool indef = false; uint64_t n = dec.read_array_start(indef); r = std::to_string(n) + "/" + (indef ? "true" : "false"); }
-                else if (op == "rms") { bool indef = false; uint64_t n = dec.read_map_start(indef); r = std::to_string(n) + "/" + (indef ? "true" : "false"); }
+                else if (op == "ras") { bool indef = (flip = !flip); uint64_t n = dec.read_array_start(indef); r = std::to_string(n) + "/" + (indef ? "true" : "false"); }
+                else if (op == "rms") { bool indef = (flip = !flip); uint64_t n = dec.read_map_start(indef); r = std::to_string(n) + "/" + (indef ? "true" : "false"); }
                 else if (op == "rbk") { dec.read_break(); r = "ok"; }
                 else if (op == "sk") { dec.skip_item(); r = "ok"; }
                 else r = "E:other";
